@@ -149,6 +149,42 @@ static void check_ops(int d, const std::vector<double>& a, const std::vector<dou
   }
 }
 
+// Nested expressions: each sub-expression is rounded on its own (a temporary vector holds it), so (v*a)*b is
+// ((v_k*a)*b)_k -- not v_k*(a*b) -- including when a*b over- or underflows but the component-wise result does not.
+static void check_nested(int d, const std::vector<double>& a, const std::vector<double>& b, double s, double t, long long idx) {
+  int n = d * d;
+  count("evaluations"); count("nested_expression_cases");
+  { uint64_t h = hashvec(a, d); h = hashvec(b, h); h = ref::fnv(&s, sizeof s, h); h = ref::fnv(&t, sizeof t, h); if (maxabs(a) > 0) distinct(h ^ 0x51ed); }
+  sample_every(idx, 5003, J().str("kind", "nested (v*s)*t, (s*v)*t, -(v*s), (v*s)+(w*t), (v+w)*s, v*=s;v*=t").i("d", d).num("s", s).num("t", t).arr("a", a).arr("b", b).done());
+  SU_vector va = mkvec(d, a), vb = mkvec(d, b);
+  auto cmp = [&](const char* op, const SU_vector& r, const std::vector<double>& want) {
+    bool ok = (int)r.Dim() == d;
+    for (int k = 0; ok && k < n; k++) if (!(ref::close_ulp(r[k], want[k], 0) || (std::isnan(r[k]) && std::isnan(want[k])))) ok = false;
+    if (!ok) violation(dsig((std::string(op) + ":componentwise").c_str(), d), J().i("d", d).num("s", s).num("t", t).arr("a", a).arr("b", b).arr("got", comps(r)).arr("want", want).done());
+  };
+  std::vector<double> w(n);
+  volatile double vs = s, vt = t;   // keeps the compiler from folding s*t in the expected values
+  for (int k = 0; k < n; k++) { double x = a[k] * vs; w[k] = x * vt; }
+  { SU_vector r = (va * s) * t; cmp("(v*s)*t", r, w); SU_vector r2 = (s * va) * t; cmp("(s*v)*t", r2, w); SU_vector r3 = va; r3 *= s; r3 *= t; cmp("v*=s;v*=t", r3, w);
+    SU_vector r4(d); r4 = (va * s) * t; cmp("r=(v*s)*t", r4, w); SU_vector r5 = mkvec(d, std::vector<double>(n, 0.0)); r5 += (va * s) * t; cmp("r+=(v*s)*t", r5, w); }
+  for (int k = 0; k < n; k++) { double x = a[k] * vs; w[k] = -x; }
+  { SU_vector r = -(va * s); cmp("-(v*s)", r, w); }
+  for (int k = 0; k < n; k++) { double x = a[k] * vs, y = b[k] * vt; w[k] = x + y; }
+  { SU_vector r = (va * s) + (vb * t); cmp("(v*s)+(w*t)", r, w); }
+  for (int k = 0; k < n; k++) { double x = a[k] * vs, y = b[k] * vt; w[k] = x - y; }
+  { SU_vector r = (va * s) - (vb * t); cmp("(v*s)-(w*t)", r, w); }
+  for (int k = 0; k < n; k++) { double x = a[k] + b[k]; w[k] = x * vs; }
+  { SU_vector r = (va + vb) * s; cmp("(v+w)*s", r, w); }
+  for (int k = 0; k < n; k++) { double x = a[k] - b[k]; w[k] = x * vs; }
+  { SU_vector r = (va - vb) * s; cmp("(v-w)*s", r, w); }
+  for (int k = 0; k < n; k++) { double x = a[k] + b[k]; w[k] = -x; }
+  { SU_vector r = -(va + vb); cmp("-(v+w)", r, w); }
+  for (int k = 0; k < n; k++) { double x = -a[k]; w[k] = -x; }
+  { SU_vector r = -(-va); cmp("-(-v)", r, w); }
+  if (s != 0 && t != 0) { for (int k = 0; k < n; k++) { double x = a[k] / vs; w[k] = x / vt; } SU_vector r = va; r /= s; r /= t; bool ok = true; for (int k = 0; k < n; k++) if (!(ref::close_ulp(r[k], w[k], 4, 4 * 4.9406564584124654e-324) || (std::isnan(r[k]) && std::isnan(w[k])))) ok = false;
+    if (!ok) violation(dsig("v/=s;v/=t:componentwise", d), J().i("d", d).num("s", s).num("t", t).arr("a", a).arr("got", comps(r)).arr("want", w).done()); }
+}
+
 int main(int argc, char** argv) {
   Args ar = parse(argc, argv); quiet_gsl();
   bool th = ar.thorough();
@@ -183,6 +219,15 @@ int main(int argc, char** argv) {
     { auto& A = alph[d]; size_t stride = std::max<size_t>(1, A.size() / (ar.reduced ? 12 : 34)); for (size_t i = 0; i < A.size(); i += stride) sub.push_back(A[i]); for (int w = 0; w < 3; w++) { sub.push_back(probe(d, w)); sub.push_back(scaled(probe(d, w), th ? 1e300 : 1e150)); } }
     count("pair_subset_size", (long long)sub.size());
     for (size_t i = 0; i < sub.size(); i++) for (size_t j = 0; j < sub.size(); j++) check_ops(d, sub[i], sub[j], idx++, maxabs(sub[i]) < 1e200 && maxabs(sub[j]) < 1e200);
+  }
+  // nested expressions over all ordered pairs of a scalar alphabet that includes magnitudes whose product leaves the double range
+  {
+    const double NS[] = {1e200, 1e-200, -3.25, 0.5, 1e300, 1e-300, 0.0, -0.0, 3e-320, -1e155, 7e-160};
+    for (int d = 2; d <= 6; d++) {
+      std::vector<std::vector<double>> V = {probe(d, 0), scaled(probe(d, 1), 1e-250), scaled(probe(d, 2), 1e250), unit(d, d + 1, -2.0)};
+      if (ar.reduced && d > 3) continue;
+      for (size_t i = 0; i < V.size(); i++) for (double s : NS) for (double t : NS) check_nested(d, V[i], V[(i + 1) % V.size()], s, t, idx++);
+    }
   }
   // == across all dimension pairs (and with empty vectors)
   for (int d1 = 2; d1 <= 6; d1++) for (int d2 = 2; d2 <= 6; d2++) {
